@@ -30,7 +30,11 @@ def run(rep, tier):
     sites = common.guarded(rep, "C04.3", c04.c04_3, rep, ix)
     if sites:
         common.guarded(rep, "C04.4", c04.c04_4, rep, ix, sites)
+        common.guarded(rep, "C04.8", c04.c04_8, rep, ix, sites)
     common.guarded(rep, "C04.7", c04.c04_7, rep, ix)
+    # whether the included program is a template is decided from its reported parameters: the p-type filter drops exactly p<digits> names
+    from . import c15
+    common.guarded(rep, "C15.1", c15.c15_1, rep, ix)
     # the included file is loaded as a program of its own: nothing of it stays in the module tables of the including load, and it sees none of them
     from . import c05
     from ..gram import model as gm
